@@ -3,6 +3,8 @@ import XeofsProofs.Lemmas.EofModel
 import XeofsProofs.Lemmas.ScalerAlg
 import XeofsProofs.Lemmas.Small
 import XeofsProofs.Props.C01
+import XeofsModel.Generated.Facts
+import XeofsModel.Generated.Formulas
 /-!
 # C03 — full-mode inverse_transform restores the data; transform ∘ inverse_transform = id; `normalized`
 -/
@@ -78,5 +80,10 @@ example : Gen.scalerForward.map (·.1) = ["sub", "div", "mul", "mul"] ∧ Gen.sc
 -- non-vacuity
 example : scalerInverse ⟨true, true, true⟩ (⟨3, 2, 5, 7⟩ : ScalerParams ℝ) (scalerTransform ⟨true, true, true⟩ ⟨3, 2, 5, 7⟩ 11) = 11 :=
   scaler_inverse_left _ _ _ (by norm_num) (by norm_num) (by norm_num)
+
+/-- source obligations for the cross-set reconstruction: data leave the whitened space through `Tinv` itself (no conjugate), and
+the PC space through `Vᴴ`, the adjoint of the map `V` that took them in -/
+theorem src_unwhiten_uses_Tinv : Gen.whitenerInverseDataUsesTinv = true := by decide
+theorem src_pca_inverse_is_adjoint : Gen.pcaTransformUsesV = true ∧ Gen.pcaInverseDataUsesConjTranspose = true := by decide
 
 end C03
